@@ -292,67 +292,72 @@ def call_spec(c, func, args_seq):
 
 
 def expected_value(c, prod, slots):
-    """Spec of the action's result as ('pv', term) | ('list', seq) | ('pair', t1, t2) | ('none',) | ('call', func, seq)."""
+    """Spec of the action's result as ('pv', term) | ('list', seq) | ('pair', t1, t2) | ('none',) | ('call', func, seq).
+    The prescription is stated over the production's symbols with the optional-whitespace non-terminal BWS left out
+    (where a production allows whitespace does not change the node it prescribes); `pv(k)` is the k-th remaining slot."""
     E, U, PV = c["E"], c["U"], c["PV"]
-    lhs, rhs = prod["name"], tuple(prod["prod"])
-    pv = lambda i: E.to_pv(slots[i])
-    seq = lambda i: slots[i].slot_seq
+    lhs, full = prod["name"], tuple(prod["prod"])
+    core = [i for i, sname in enumerate(full) if sname != "BWS"]
+    rhs = tuple(full[i] for i in core)
+    pv = lambda k: E.to_pv(slots[core[k]])
+    slot = lambda k: slots[core[k]]
     if lhs in ("empty", "BWS"):
         return ("none",)
     if lhs == "common_expr":
-        if rhs == ("(", "BWS", "common_expr", "BWS", ")"):
-            return ("pv", pv(2))
+        if rhs == ("(", "common_expr", ")"):
+            return ("pv", pv(1))
         if len(rhs) == 1:
             return ("pv", pv(0))
-        if rhs == ("UMINUS", "BWS", "common_expr"):
-            return ("pv", U.node("UnaryOp", pv(0), pv(2)))
+        if rhs == ("UMINUS", "common_expr"):
+            return ("pv", U.node("UnaryOp", pv(0), pv(1)))
         if rhs == ("NOT", "common_expr"):
             return ("pv", U.node("UnaryOp", pv(0), pv(1)))
         if len(rhs) == 3 and rhs[1] in BINOP_CLASS and rhs[0] == "common_expr":
             return ("pv", U.node(BINOP_CLASS[rhs[1]], pv(1), pv(0), pv(2)))
         if rhs == ("ODATA_IDENTIFIER", "(", ")"):
             return ("call", pv(0), z3.Empty(U.Seq))
-        if rhs in (("ODATA_IDENTIFIER", "(", "BWS", "common_expr", "BWS", ")"),
-                   ("ODATA_IDENTIFIER", "(", "BWS", "named_param", "BWS", ")")):
-            return ("call", pv(0), z3.Unit(pv(3)))
+        if rhs in (("ODATA_IDENTIFIER", "(", "common_expr", ")"), ("ODATA_IDENTIFIER", "(", "named_param", ")")):
+            return ("call", pv(0), z3.Unit(pv(2)))
         if rhs == ("ODATA_IDENTIFIER", "list_expr"):
             return ("call", pv(0), PV.items(U.field("List", "val", pv(1))))
-        if rhs == ("ODATA_IDENTIFIER", "(", "BWS", "list_named_param", "BWS", ")"):
-            return ("call", pv(0), seq(3))
+        if rhs == ("ODATA_IDENTIFIER", "(", "list_named_param", ")"):
+            return ("call", pv(0), slot(2).slot_seq)
     if lhs == "primitive_literal" or lhs in ("first_member_expr", "member_expr", "entity_navigation_property"):
         return ("pv", pv(0))
-    if lhs in ("list_items", "list_named_param"):
+    if lhs in ("list_items", "list_named_param") and len(rhs) == 3 and rhs[1] == ",":
         if rhs[0] == lhs:
-            return ("list", z3.Concat(slots[0].slot_seq, z3.Unit(pv(4))))
-        return ("list", z3.Concat(z3.Unit(pv(0)), z3.Unit(pv(4))))
+            return ("list", z3.Concat(slot(0).slot_seq, z3.Unit(pv(2))))
+        return ("list", z3.Concat(z3.Unit(pv(0)), z3.Unit(pv(2))))
     if lhs == "list_expr":
-        if "list_items" in rhs:
-            return ("pv", U.node("List", PV.ListV(slots[2].slot_seq)))
-        return ("pv", U.node("List", PV.ListV(z3.Unit(pv(2)))))
+        if rhs == ("(", "list_items", ")"):
+            return ("pv", U.node("List", PV.ListV(slot(1).slot_seq)))
+        if rhs == ("(", "common_expr", ",", ")"):
+            return ("pv", U.node("List", PV.ListV(z3.Unit(pv(1)))))
     if lhs == "property_path_expr":
         if rhs == ("entity_navigation_property",):
             return ("pv", pv(0))
         if rhs == ("entity_navigation_property", "collection_path_expr"):
-            return ("pv", U.node("CollectionLambda", pv(0), E.to_pv(slots[1][0]), E.to_pv(slots[1][1])))
+            return ("pv", U.node("CollectionLambda", pv(0), E.to_pv(slot(1)[0]), E.to_pv(slot(1)[1])))
         if rhs == ("entity_navigation_property", "single_navigation_expr"):
             s1 = pv(1)
             fld = U.field
             cl = U.node("CollectionLambda", c["prepend"](pv(0), fld("CollectionLambda", "owner", s1)),
                         fld("CollectionLambda", "operator", s1), fld("CollectionLambda", "lambda_", s1))
             return ("pv", z3.If(U.is_kind("CollectionLambda", s1), cl, c["prepend"](pv(0), s1)))
-    if lhs == "single_navigation_expr":
+    if lhs == "single_navigation_expr" and rhs == ("/", "member_expr"):
         return ("pv", pv(1))
-    if lhs == "collection_path_expr":
-        return ("pair", E.to_pv(slots[1][0]), E.to_pv(slots[1][1]))
-    if lhs == "lambda_":
-        return ("pv", U.node("Lambda", pv(0), pv(4)))
+    if lhs == "collection_path_expr" and len(rhs) == 2 and rhs[0] == "/":
+        return ("pair", E.to_pv(slot(1)[0]), E.to_pv(slot(1)[1]))
+    if lhs == "lambda_" and rhs == ("ODATA_IDENTIFIER", ":", "common_expr"):
+        return ("pv", U.node("Lambda", pv(0), pv(2)))
     if lhs in ("any_expr", "all_expr"):
-        if "lambda_" in rhs:
-            return ("pair", pv(0), pv(3))
-        return ("pair", pv(0), U.none())
-    if lhs == "named_param":
+        if rhs[1:] == ("(", "lambda_", ")"):
+            return ("pair", pv(0), pv(2))
+        if rhs[1:] == ("(", ")"):
+            return ("pair", pv(0), U.none())
+    if lhs == "named_param" and rhs == ("ODATA_IDENTIFIER", "=", "common_expr"):
         return ("pv", U.node("NamedParam", pv(0), pv(2)))
-    raise Unsupported(f"no value spec for production {lhs} -> {' '.join(rhs)}")
+    raise Unsupported(f"no value spec for production {lhs} -> {' '.join(full)}")
 
 
 def value_goal(c, exp, value):
